@@ -62,6 +62,69 @@ let rec take_tbl k toks = if k = 0 then toks else
       Hashtbl.replace (if w = "32" then pf32_tbl else pf64_tbl) lit bits; take_tbl (k - 1) r
   | _ -> failwith "short table"
 
+(* ---------------------------------------------------------------- the TRANSLATED scanner (Gen/Scanner.v)
+     s <hextext>                 -> s <ops> <state> <eof-op> <state>      one letter per opcode (a = 0 ..), "-" = none;
+                                    state = <step function>:<parse stack, one digit per entry, "-" = empty>:<endTop><err>
+                                    taken after the last byte and again after eof(); P = the model reached a Go panic
+     X <hexalphabet> <hexprefix> <k>
+                                 -> X <count> <fnv32 of the result lines (without the leading "s ") of the prefix and of
+                                    every extension by up to k symbols of the alphabet, depth first, in alphabet order>  *)
+let zbyte_tab : z array = Array.init 256 z_of_int
+let zbytes_of_hex (h : string) : z list = List.map (fun x -> zbyte_tab.(int_of_n x land 255)) (bytes_of_hex h)
+let opch (o : z) : char = Char.chr (97 + int_of_z o)
+let sc_state (s : scanner) : string =
+  let b = Buffer.create 48 in
+  List.iter (fun c -> Buffer.add_char b (Char.chr (int_of_z c))) (sstate_name s.step);
+  Buffer.add_char b ':';
+  if s.parseState = [] then Buffer.add_char b '-'
+  else List.iter (fun v -> Buffer.add_char b (Char.chr (48 + int_of_z v))) s.parseState;
+  Buffer.add_char b ':';
+  Buffer.add_char b (if s.endTop then '1' else '0');
+  Buffer.add_char b (if s.errContext then '1' else '0');
+  Buffer.contents b
+(* ops: the opcode letters of the bytes scanned so far (no panic among them) *)
+let sc_finish (s : scanner) (ops : string) : string =
+  let ops = if ops = "" then "-" else ops in
+  let pre = sc_state s in
+  let (s2, op) = scan_eof s in
+  if s2.crashed then ops ^ " " ^ pre ^ " P"
+  else Printf.sprintf "%s %s %c %s" ops pre (opch op) (sc_state s2)
+let sc_text (text : z list) : string =
+  let ops = Buffer.create 32 in
+  let rec go s = function
+    | [] -> sc_finish s (Buffer.contents ops)
+    | c :: r ->
+        let (s1, op) = scan_step s c in
+        if s1.crashed then (if Buffer.length ops = 0 then "-" else Buffer.contents ops) ^ " P"
+        else (Buffer.add_char ops (opch op); go s1 r) in
+  go scan_init text
+let fnv (h : int) (str : string) : int =
+  let h = ref h in
+  String.iter (fun ch -> h := ((!h lxor Char.code ch) * 16777619) land 0xFFFFFFFF) str;
+  ((!h lxor 10) * 16777619) land 0xFFFFFFFF
+let sc_batch (alpha : z list) (prefix : z list) (k : int) : int * int =
+  let h = ref 2166136261 and n = ref 0 in
+  (* the state after the prefix, then depth first; a panic ends a branch (its extensions repeat the line) *)
+  let rec walk (s : scanner) (ops : string) (dead : string option) (k : int) =
+    let line = match dead with Some l -> l | None -> sc_finish s ops in
+    h := fnv !h line; incr n;
+    if k > 0 then
+      List.iter (fun c ->
+        match dead with
+        | Some _ -> walk s ops dead (k - 1)
+        | None ->
+            let (s1, op) = scan_step s c in
+            if s1.crashed then walk s1 ops (Some ((if ops = "" then "-" else ops) ^ " P")) (k - 1)
+            else walk s1 (ops ^ String.make 1 (opch op)) None (k - 1)) alpha in
+  let rec pre s ops = function
+    | [] -> walk s ops None k
+    | c :: r ->
+        let (s1, op) = scan_step s c in
+        if s1.crashed then walk s1 ops (Some ((if ops = "" then "-" else ops) ^ " P")) k
+        else pre s1 (ops ^ String.make 1 (opch op)) r in
+  pre scan_init "" prefix;
+  (!n, !h)
+
 let () = iter_lines (fun line ->
   Hashtbl.reset fm32_tbl; Hashtbl.reset fm64_tbl; Hashtbl.reset pf32_tbl; Hashtbl.reset pf64_tbl;
   match split_ws line with
@@ -78,4 +141,8 @@ let () = iter_lines (fun line ->
       (match parse_doc (pf pf32_tbl) (pf pf64_tbl) (bytes_of_hex h) with
        | Some (t', d) -> Printf.printf "q ok %s tt=%d\n" (hex_of_bytes d) (int_of_n (kind t'))
        | None -> print_string "q err\n")
+  | ["s"; h] -> Printf.printf "s %s\n" (sc_text (zbytes_of_hex h))
+  | ["X"; a; p; k] ->
+      let (n, h) = sc_batch (zbytes_of_hex a) (zbytes_of_hex p) (int_of_string k) in
+      Printf.printf "X %d %08x\n" n h
   | _ -> Printf.printf "?? %s\n" line)
